@@ -1,0 +1,22 @@
+//go:build verif
+
+// Machine-checked contracts for this package (comment-only; compiled only with
+// the build tag `verif`). Read by /verif/engine (govc); see /verif/DESIGN.md.
+package mem2reg
+//
+// ---- statement-tree walkers descend into every nested block -------------------------------
+// (type-derived: for the statement handled by one iteration every field of type
+// Block of every statement kind is passed to the recursive call; see ir/zz_verif_contracts.go)
+//
+//@ func collectStores
+//@   mode bv
+//@   tags C13
+//@   ghostcall collectStores visitedBlock block
+//@   traverse stepmark 1 block ir.Block visitedBlock($)
+//
+//@ func collectEmitsInBlock
+//@   mode bv
+//@   tags C13
+//@   ghostcall collectEmitsInBlock visitedBlock block
+//@   traverse stepmark 1 block ir.Block visitedBlock($)
+//
